@@ -1,8 +1,411 @@
 import Drive.Util
-/-! Trace validator for the `cache` stream(s).  (stub: to be filled in) -/
-namespace Drive.Cache
+import RV.Model.Cache
+/-!
+Trace validator for the cache streams (`cache`, `cache_single`, `cache_collide`, …).
 
-def run (_h : IO.FS.Stream) : IO Verdict :=
-  return { ok := false, lines := 0, checks := 0, msg := "component cache not implemented" }
+The harness logs, per release of one goroutine by its cooperative scheduler, the yield
+points reached (`at G HOOK`), observations (`obs`), callbacks (`cb`), returns (`ret`) and
+blocked goroutines (`blk`).  This driver advances the corresponding model thread step by
+step until it is at the program counter that the yield point stands for, feeding the
+observed nondeterministic choices, and compares callbacks, return values and snapshots.
+Any step the model does not allow, or any difference, rejects the trace.
+-/
+namespace Drive.Cache
+open RV RV.Cache
+
+def cTag : CPc → Nat
+  | .idle => 0 | .setStart .. => 1 | .setUpd .. => 2 | .setExit .. => 3 | .setSend .. => 4
+  | .setRetTrue .. => 5 | .setRetDrop .. => 6 | .delStart .. => 7 | .delExit .. => 8
+  | .delSend .. => 9 | .delBlocked .. => 10 | .delSent .. => 11 | .waitStart => 12
+  | .waitSend => 13 | .waitBlocked .. => 14 | .waitRecv .. => 15 | .waitDone => 16
+  | .getStart .. => 17 | .getRead .. => 18 | .getCheck .. => 19 | .getMetric .. => 20
+  | .ttlRead .. => 21 | .ttlCheck .. => 22 | .ttlExp .. => 23 | .ttlNow .. => 24
+  | .ttlUntil .. => 25 | .iterStart .. => 26 | .iterShard .. => 27 | .clrStart .. => 28
+  | .clrStop .. => 29 | .clrDone .. => 30 | .clrDrain .. => 31 | .clrPolicy .. => 32
+  | .clrShard .. => 33 | .clrEm .. => 34 | .clrMetrics .. => 35 | .clrRestart .. => 36
+  | .clsStop => 37 | .clsDone => 38 | .clsFinish => 39 | .updMax .. => 40 | .readMax => 41
+  | .readRem => 42
+
+def aTag : APc → Nat
+  | .idle => 0 | .marker .. => 1 | .item .. => 2 | .costed .. => 3 | .added .. => 4
+  | .victims .. => 5 | .victimEvict .. => 6 | .tombPolicy .. => 7 | .tombStore .. => 8
+  | .tick => 9 | .sweep .. => 10 | .swKey .. => 11 | .swPolDel .. => 13
+  | .swStoreDel .. => 14 | .stopAck => 15 | .dead => 16
+
+structure D where
+  cfg : Cfg := { bufCap := 1, ignoreInternal := true, costFn := none, shouldUpdate := none, metricsOn := false, maxCost := 1 }
+  s : State := init { bufCap := 1, ignoreInternal := true, costFn := none, shouldUpdate := none, metricsOn := false, maxCost := 1 } 0
+  started : Bool := false
+  cur : String := ""
+  obs : List (Nat × Nat × Nat) := []
+  cbs : List Ev := []              -- observed callbacks of the current release (chronological)
+  logLen : Nat := 0                -- model log length at the start of the current release
+  iterSeen : Option (List Val) := none
+  cover : List (String × Nat) := []
+
+def costFnImpl (v : Val) : Int := (v % 5 : Nat) + 1
+def suImpl (cur _prev : Val) : Bool := cur % 4 != 0
+
+def kv (ws : List String) (k : String) : Option String :=
+  ws.findSome? fun w => match w.splitOn "=" with
+    | [a, b] => if a == k then some b else none
+    | _ => none
+
+def clientId (g : String) : Option Nat :=
+  if g.startsWith "c" then (g.drop 1).toNat? else none
+
+def h64? (s : String) : Option Hash := (s.toNat?).map (BitVec.ofNat 64)
+
+/-- model callbacks logged since `from` (chronological) -/
+def newCallbacks (s : State) (since : Nat) : List Ev :=
+  ((s.log.take (s.log.length - since)).reverse).filter fun e =>
+    match e with | .exit .. => true | .evict .. => true | .reject .. => true | _ => false
+
+def evStr : Ev → String
+  | .exit v => s!"exit {v}"
+  | .evict h c v cost => s!"evict {h.toNat} {c.toNat} {v} {cost}"
+  | .reject h c v cost => s!"reject {h.toNat} {c.toNat} {v} {cost}"
+  | _ => "?"
+
+/-- compare the callbacks of the finished release -/
+def finishRelease (d : D) : Except String D :=
+  let model := newCallbacks d.s d.logLen
+  if model == d.cbs then .ok { d with cbs := [], obs := [], logLen := d.s.log.length, cur := "" }
+  else .error s!"callbacks of release '{d.cur}': implementation {d.cbs.map evStr}, model {model.map evStr}"
+
+def takeObs (d : D) (id : Nat) : Option ((Nat × Nat) × D) :=
+  let rec go (pre : List (Nat × Nat × Nat)) (l : List (Nat × Nat × Nat)) : Option ((Nat × Nat) × List (Nat × Nat × Nat)) :=
+    match l with
+    | [] => none
+    | (i, a, b) :: rest => if i == id then some ((a, b), pre.reverse ++ rest) else go ((i, a, b) :: pre) rest
+  match go [] d.obs with
+  | some (ab, rest) => some (ab, { d with obs := rest })
+  | none => none
+
+def stepD (d : D) (a : Action) (what : String) : Except String D :=
+  match step d.cfg d.s a with
+  | some s' => .ok { d with s := s' }
+  | none => .error s!"model does not allow: {what}"
+
+/-- key holding value `v` in the store -/
+def keyOfVal (st : Store) (v : Val) : Option Hash :=
+  (st.toList.find? (fun p => p.2.value == v)).map (·.1)
+
+/-- enumeration order of shard `k` consistent with what was observed -/
+def shardOrderFrom (st : Store) (k : Nat) (observed : List Hash) : List Hash :=
+  let inShard := shardKeys st k
+  let first := observed.filter (fun h => inShard.contains h)
+  first ++ inShard.filter (fun h => !first.contains h)
+
+def evictedKeys (cbs : List Ev) : List Hash :=
+  cbs.filterMap fun e => match e with | .evict h _ _ _ => some h | _ => none
+
+/-- the choice the next step of client `t` needs -/
+def clientChoice (d : D) (t : Tid) : Choice × D :=
+  match d.s.cl t with
+  | .getStart .. =>
+    match takeObs d 66 with
+    | some ((kept, n), d') => (.flush (kept == 1) n, d')
+    | none => (.none, d)
+  | .clrShard _ k => (.order (shardOrderFrom d.s.store k (evictedKeys d.cbs)), d)
+  | .iterShard k _ seen =>
+    match d.iterSeen with
+    | none => (.order (shardKeys d.s.store k), d)
+    | some all =>
+      let rest := all.drop seen.length
+      (.order (shardOrderFrom d.s.store k (rest.filterMap (keyOfVal d.s.store))), d)
+  | _ => (.none, d)
+
+def blockedTag (t : Nat) : Bool := t == 10 || t == 14 || t == 15 || t == 29 || t == 30 || t == 37 || t == 38
+
+/-- advance client `t` until its pc tag is in `allowed` -/
+def advClient (d : D) (t : Tid) (allowed : Nat → Bool) (fuel : Nat) (why : String) : Except String D :=
+  match fuel with
+  | 0 => .error s!"client {t}: no progress towards {why}"
+  | fuel + 1 =>
+    if allowed (cTag (d.s.cl t)) then .ok d else
+    let (ch, d1) := clientChoice d t
+    match step d1.cfg d1.s (.client t ch) with
+    | some s' => advClient { d1 with s := s' } t allowed fuel why
+    | none => .error s!"client {t} at pc tag {cTag (d.s.cl t)}: model has no step towards {why}"
+
+def offering (d : D) : Option Tid :=
+  (List.range 16).find? fun t => match d.s.cl t with | .clrStop _ => true | .clsStop => true | _ => false
+
+def victimsOfObs (obs : List (Nat × Nat × Nat)) : List (Hash × Int) :=
+  obs.filterMap fun (i, a, b) => if i == 63 then some (BitVec.ofNat 64 a, (BitVec.ofNat 64 b).toInt) else none
+
+def applierChoice (d : D) (hook : Nat) : Except String (Choice × D) :=
+  match d.s.app with
+  | .idle =>
+    if hook == 30 then .ok (.selItem, d)
+    else if hook == 41 then .ok (.selTick, d)
+    else if hook == 43 then
+      match offering d with
+      | some t => .ok (.selStop t, d)
+      | none => .error "applier took `stop` but no client offers it in the model"
+    else .error s!"applier idle but hook {hook} reached"
+  | .costed i =>
+    match i.flag with
+    | .new =>
+      let vs := victimsOfObs d.obs
+      let added := d.obs.any fun (i, a, _) => i == 33 && a == 1
+      .ok (.add vs added, { d with obs := d.obs.filter fun (i, _, _) => !(i == 63 || i == 33 || i == 60 || i == 61 || i == 62) })
+    | _ => .ok (.none, d)
+  | .sweep _ bs =>
+    match firstNonEmpty bs with
+    | [] => .ok (.none, d)
+    | _ =>
+      match takeObs d 51 with
+      | some ((k, _), d') => .ok (.key (BitVec.ofNat 64 k), d')
+      | none => .error "sweep: no observed key"
+  | _ => .ok (.none, d)
+
+def advApplier (d : D) (hook : Nat) (allowed : Nat → Bool) (force : Bool) (fuel : Nat) : Except String D :=
+  match fuel with
+  | 0 => .error s!"applier: no progress towards hook {hook}"
+  | fuel + 1 =>
+    if !force && allowed (aTag d.s.app) then .ok d else
+    match applierChoice d hook with
+    | .error e => .error e
+    | .ok (ch, d1) =>
+      match step d1.cfg d1.s (.applier ch) with
+      | some s' => advApplier { d1 with s := s' } hook allowed false fuel
+      | none => .error s!"applier at pc tag {aTag d.s.app}: model has no step towards hook {hook}"
+
+def applierAllowed (hook : Nat) : Option (Nat → Bool) :=
+  match hook with
+  | 30 => some (fun t => t == 1 || t == 2)
+  | 31 => some (· == 0)
+  | 32 => some (· == 3)
+  | 33 => some (· == 4)
+  | 34 => some (fun t => t == 5 || t == 0)
+  | 35 => some (· == 5)
+  | 36 => some (· == 6)
+  | 37 => some (· == 0)
+  | 38 => some (· == 7)
+  | 39 => some (· == 8)
+  | 40 => some (· == 0)
+  | 41 => some (· == 9)
+  | 42 => some (· == 0)
+  | 43 => some (· == 15)
+  | 50 => some (· == 10)
+  | 51 => some (· == 11)
+  | 53 => some (· == 13)
+  | 54 => some (· == 14)
+  | _ => none
+
+/-- a client reached yield point `hook` -/
+def clientAt (d : D) (t : Tid) (hook : Nat) : Except String D := do
+  let tag := cTag (d.s.cl t)
+  let isTtl := tag ≥ 21 && tag ≤ 25
+  match hook with
+  | 100 => .ok d
+  | 1 => advClient d t (· == 3) 8 "vpSetAfterUpdate"
+  | 2 => advClient d t (· == 4) 8 "vpSetBeforeSend"
+  | 3 => advClient d t (· == 5) 8 "vpSetSent"
+  | 4 => advClient d t (· == 6) 8 "vpSetDropped"
+  | 5 => advClient d t (· == 8) 8 "vpDelAfterStore"
+  | 6 => advClient d t (· == 9) 8 "vpDelBeforeSend"
+  | 7 => advClient d t (· == 11) 8 "vpDelSent"
+  | 8 => advClient d t (· == 13) 8 "vpWaitBeforeSend"
+  | 9 => advClient d t (· == 15) 8 "vpWaitSent"
+  | 10 => advClient d t (· == 16) 8 "vpWaitDone"
+  | 11 => advClient d t (· == 18) 8 "vpGetBeforeStore"
+  | 12 => advClient d t (· == 20) 8 "vpGetAfterStore"
+  | 23 => if isTtl then advClient d t (· == 22) 8 "vpLockedGetRead" else advClient d t (· == 19) 8 "vpLockedGetRead"
+  | 13 =>
+    let d1 ← advClient d t (fun x => x == 29 || x == 30) 8 "vpClearStopSent"
+    if cTag (d1.s.cl t) == 29 then stepD d1 (.applier (.selStop t)) "applier receives stop" else .ok d1
+  | 21 =>
+    let d1 ← advClient d t (fun x => x == 37 || x == 38) 8 "vpCloseStopSent"
+    if cTag (d1.s.cl t) == 37 then stepD d1 (.applier (.selStop t)) "applier receives stop (close)" else .ok d1
+  | 14 => if cTag (d.s.cl t) == 31 then .ok d else stepD d (.done t) "done rendezvous (clear)"
+  | 22 => if cTag (d.s.cl t) == 39 then .ok d else stepD d (.done t) "done rendezvous (close)"
+  | 16 => advClient d t (· == 32) 100000 "vpClearDrained"
+  | 17 => advClient d t (· == 33) 8 "vpClearPolicy"
+  | 18 => advClient d t (· == 35) 1000 "vpClearStore"
+  | 19 => advClient d t (· == 36) 8 "vpClearMetrics"
+  | 20 => advClient d t (· == 37) 8 "vpCloseCleared"
+  | _ => .error s!"unknown client hook {hook}"
+
+def applierAt (d : D) (hook : Nat) : Except String D :=
+  if hook == 44 then
+    if aTag d.s.app == 16 then .ok d else
+    match (List.range 16).find? (fun t => match d.s.cl t with | .clrDone _ => true | .clsDone => true | _ => false) with
+    | some t => stepD d (.done t) "done rendezvous"
+    | none => .error "applier sent `done` but no client waits for it in the model"
+  else if hook == 43 then
+    -- which blocked sender the runtime served is only known from that client's own arrival at
+    -- vpClearStopSent / vpCloseStopSent (same release); the step is taken there.
+    if aTag d.s.app == 15 || (aTag d.s.app == 0 && (offering d).isSome) then .ok d
+    else .error "applier took `stop` but no client offers it in the model"
+  else
+    match applierAllowed hook with
+    | none => .error s!"unknown applier hook {hook}"
+    | some allowed => advApplier d hook allowed (hook == 51 && aTag d.s.app == 11) 100000
+
+def lastRet (s : State) (since : Nat) (t : Tid) : Option Ev :=
+  (s.log.take (s.log.length - since)).find? fun e =>
+    match e with
+    | .setRet t' .. | .getRet t' .. | .ttlRet t' .. | .delRet t' .. | .waitRet t' | .clearRet t'
+    | .closeRet t' | .iterRet t' .. | .maxRet t' .. | .remRet t' .. => t' == t
+    | _ => false
+
+def parseVals (s : String) : List Val :=
+  if s == "-" then [] else (s.splitOn ",").filterMap (·.toNat?)
+
+def clientRet (d : D) (t : Tid) (res : List String) : Except String D := do
+  let before := d.s.log.length
+  let d0 := match res with
+    | ["iter", vs] => { d with iterSeen := some (parseVals vs) }
+    | _ => d
+  let d1 ← advClient d0 t (· == 0) 100000 "return"
+  let d1 := { d1 with iterSeen := none }
+  let ev := lastRet d1.s (min before d.logLen) t
+  let bad (m : String) : Except String D := .error s!"return of client {t}: implementation {res}, model {m}"
+  match res, ev with
+  | ["set", b], some (.setRet _ _ ok) => if (b == "1") == ok then .ok d1 else bad s!"set {ok}"
+  | ["get", f, v], some (.getRet _ _ _ r) =>
+    let exp := if f == "1" then v.toNat? else none
+    if exp == r && (f == "1" || v == "0") then .ok d1 else bad s!"get {r}"
+  | ["getttl", f, dur], some (.ttlRet _ _ _ dd ok) =>
+    if (f == "1") == ok && dur.toInt? == some dd then .ok d1 else bad s!"getttl {ok} {dd}"
+  | ["del"], some (.delRet ..) => .ok d1
+  | ["wait"], some (.waitRet ..) => .ok d1
+  | ["clear"], some (.clearRet ..) => .ok d1
+  | ["close"], some (.closeRet ..) => .ok d1
+  | ["iter", vs], some (.iterRet _ seen) => if parseVals vs == seen then .ok d1 else bad s!"iter {seen}"
+  | ["max", m], some (.maxRet _ mm) => if m.toInt? == some mm then .ok d1 else bad s!"max {mm}"
+  | ["rem", m], some (.remRet _ mm) => if m.toInt? == some mm then .ok d1 else bad s!"rem {mm}"
+  | ["updmax"], _ => .ok d1
+  | ["panic"], _ => .error s!"client {t} panicked in the implementation"
+  | _, _ => bad "(no matching return event)"
+
+def parseCall (ws : List String) : Option Call :=
+  match ws with
+  | ["set", h, c, v, cost, ttl] =>
+    match h64? h, h64? c, v.toNat?, cost.toInt?, ttl.toInt? with
+    | some h, some c, some v, some cost, some ttl => some (.set h c v cost ttl)
+    | _, _, _, _, _ => none
+  | ["get", h, c] => match h64? h, h64? c with | some h, some c => some (.get h c) | _, _ => none
+  | ["getttl", h, c] => match h64? h, h64? c with | some h, some c => some (.getTTL h c) | _, _ => none
+  | ["del", h, c] => match h64? h, h64? c with | some h, some c => some (.del h c) | _, _ => none
+  | ["wait"] => some .wait
+  | ["clear"] => some .clear
+  | ["close"] => some .close
+  | ["iter", n] => n.toNat?.map .iter
+  | ["updmax", m] => m.toInt?.map .updateMaxCost
+  | ["max"] => some .maxCost
+  | ["rem"] => some .remainingCost
+  | _ => none
+
+def sortBy {α} (lt : α → α → Bool) (l : List α) : List α := (l.toArray.qsort lt).toList
+
+def snapStore (s : State) : String :=
+  let es := sortBy (fun (a b : Hash × Entry) => a.1.toNat < b.1.toNat) s.store.toList
+  ",".intercalate (es.map fun (h, e) =>
+    s!"{h.toNat}:{e.conflict.toNat}:{e.value}:{if e.exp == Gen.zeroTime then 0 else e.exp}")
+
+def snapPol (s : State) : String :=
+  let es := sortBy (fun (a b : Hash × Int) => a.1.toNat < b.1.toNat) s.pol.costs.toList
+  ",".intercalate (es.map fun (h, c) => s!"{h.toNat}:{c}")
+
+def snapEm (s : State) : String :=
+  let bs := sortBy (fun (a b : Int × AMap Hash Conf) => a.1 < b.1) s.em.buckets.toList
+  let parts := bs.flatMap fun (b, m) =>
+    (sortBy (fun (a c : Hash × Conf) => a.1.toNat < c.1.toNat) m.toList).map fun (h, c) => s!"{b}:{h.toNat}:{c.toNat}"
+  ",".intercalate parts
+
+def snapMet (d : D) : String :=
+  if !d.cfg.metricsOn then "-" else
+  let m := d.s.met
+  ",".intercalate ([m.hit, m.miss, m.keyAdd, m.keyUpdate, m.keyEvict, m.costAdd, m.costEvict, m.dropSets,
+    m.rejectSets, m.dropGets, m.keepGets].map fun x => toString x.toNat)
+
+def checkSnap (d : D) (ws : List String) : Except String D := do
+  let get (k : String) := (kv ws k).getD ""
+  let cmp (k : String) (model : String) : Except String Unit :=
+    if get k == model then .ok () else .error s!"snapshot {k}: implementation '{get k}', model '{model}'"
+  cmp "store" (snapStore d.s)
+  cmp "pol" (snapPol d.s)
+  cmp "used" (toString d.s.pol.used)
+  cmp "max" (toString d.s.pol.maxCost)
+  cmp "last" (toString d.s.em.lastCleaned)
+  cmp "em" (snapEm d.s)
+  cmp "met" (snapMet d)
+  .ok d
+
+def stepLine (d : D) (_n : Nat) (ws : List String) : Except String (D × Nat) :=
+  match ws with
+  | ["case", _] => .ok ({ cover := d.cover }, 0)
+  | "cfg" :: rest =>
+    let b (k : String) := kv rest k == some "1"
+    match (kv rest "bufcap").bind (·.toNat?), (kv rest "maxcost").bind (·.toInt?), (kv rest "now").bind (·.toInt?) with
+    | some cap, some mc, some now =>
+      let cfg : Cfg := { bufCap := cap, ignoreInternal := b "ignoreinternal", metricsOn := b "metrics", maxCost := mc,
+                         costFn := if b "costfn" then some costFnImpl else none,
+                         shouldUpdate := if b "su" then some suImpl else none }
+      .ok ({ d with cfg := cfg, s := init cfg now, started := true, logLen := 0 }, 0)
+    | _, _, _ => .error "bad cfg"
+  | "spawn" :: g :: call =>
+    match clientId g, parseCall call with
+    | some t, some c => do
+      let d1 ← if d.cur != "" then finishRelease d else .ok d
+      let d2 ← stepD d1 (.spawn t c) s!"spawn {g} {call}"
+      .ok ({ d2 with logLen := d2.s.log.length }, 0)
+    | _, _ => .error s!"bad spawn {ws}"
+  | ["rel", g] => do
+    let d1 ← if d.cur != "" then finishRelease d else .ok d
+    .ok ({ d1 with cur := g, logLen := d1.s.log.length }, 0)
+  | ["obs", i, a, b] =>
+    match i.toNat?, a.toNat?, b.toNat? with
+    | some i, some a, some b => .ok ({ d with obs := d.obs ++ [(i, a, b)] }, 0)
+    | _, _, _ => .error "bad obs"
+  | ["cb", "exit", v] =>
+    match v.toNat? with
+    | some v => .ok ({ d with cbs := d.cbs ++ [.exit v] }, 0)
+    | none => .error "bad cb"
+  | ["cb", kind, h, c, v, cost] =>
+    match h64? h, h64? c, v.toNat?, cost.toInt? with
+    | some h, some c, some v, some cost =>
+      if kind == "evict" then .ok ({ d with cbs := d.cbs ++ [.evict h c v cost] }, 0)
+      else if kind == "reject" then .ok ({ d with cbs := d.cbs ++ [.reject h c v cost] }, 0)
+      else .error "bad cb kind"
+    | _, _, _, _ => .error "bad cb"
+  | ["at", g, hook] =>
+    match hook.toNat? with
+    | none => .error "bad at"
+    | some hook =>
+      if g == "pol" then .ok (d, 0)
+      else if g == "app" then (applierAt d hook).map (·, 1)
+      else match clientId g with
+        | some t => (clientAt d t hook).map (·, 1)
+        | none => .error s!"unknown goroutine {g}"
+  | ["blk", g] =>
+    match clientId g with
+    | some t => (advClient d t blockedTag 16 "a blocking point").map (·, 1)
+    | none => .ok (d, 0)
+  | "ret" :: g :: res =>
+    match clientId g with
+    | some t => (clientRet d t res).map (·, 1)
+    | none => .error s!"bad ret {ws}"
+  | ["tick", n] =>
+    match n.toNat? with
+    | some n => do
+      let d1 ← if d.cur != "" then finishRelease d else .ok d
+      let d2 ← stepD d1 (.tick n) "tick"
+      .ok ({ d2 with cur := "tick", logLen := d2.s.log.length }, 0)
+    | none => .error "bad tick"
+  | "snap" :: rest => do
+    let d1 ← if d.cur != "" then finishRelease d else .ok d
+    let d2 ← checkSnap d1 rest
+    .ok (d2, 1)
+  | ["end"] => do
+    let d1 ← if d.cur != "" then finishRelease d else .ok d
+    .ok (d1, 1)
+  | _ => .error s!"unknown record {ws}"
+
+def run (h : IO.FS.Stream) : IO Verdict := runLines h ({} : D) stepLine
 
 end Drive.Cache
